@@ -39,6 +39,7 @@ CASE_TIMEOUT = 3000
 
 Q1 = [0.01, 0.05, 0.2]
 Q2 = [0.02, 0.11]
+Q1B = [0.02, 0.11, 0.3]      # as many points as Q1
 QX = [0.05, -0.1, 0.013]
 QY = [0.02, 0.13, -0.3]
 
@@ -319,6 +320,38 @@ def _ops():
         pq, sq = L.svps.calc_composition_models(np.array(Q1))
         return "svps", (v1, pq, sq), []
 
+    def rel_pair(L):
+        # an explicitly released (and then dropped) kernel, followed by TWO live kernels of the same model with the
+        # same number of q points: the older one must still answer for its own q values
+        import gc
+        m = L.model("sphere")
+        ka = m.make_kernel([np.array(Q1)])
+        call_kernel(ka, dict(P["mono"]))
+        ka.release()
+        del ka
+        gc.collect()
+        kb = m.make_kernel([np.array(Q1)])
+        kc = m.make_kernel([np.array(Q1B)])
+        v, ch = _guarded(lambda p: call_kernel(kb, p, cutoff=0.0), dict(P["disp"]))
+        call_kernel(kc, dict(P["mono"]))
+        # the request is the elementary one of sph_disp on q1: same key, hence the same fresh-process oracle value
+        # (an oracle obtained by running THIS compound operation first would contain the defect it looks for)
+        return "sphere:q1:disp:0", v, ch
+
+    def fq_refused(L):
+        # a request that is refused (misspelt parameter) must leave the caller's dictionary exactly as it was
+        which = "q%d" % L.qsel
+        k = L.kernel("sphere", which)
+        pars = dict(P["fq"], radius_effective_mode=0, raduis=3.0)
+        before = copy.deepcopy(pars)
+        try:
+            call_Fq(k, pars)
+        except Exception:  # noqa - whether a misspelt name is refused is C10's business
+            pass
+        ch = [] if (pars == before and list(pars) == list(before)) else [
+            "a refused call_Fq changed the caller's dictionary from %r to %r" % (before, pars)]
+        return None, None, ch
+
     def sv_array(L):
         # a tabulated distribution supplied by the caller (weights deliberately not normalised): the caller's two
         # arrays are inputs like any other and every repetition of the request must return the same bits
@@ -372,14 +405,14 @@ def _ops():
         ("mix", generic("sphere+cylinder", "q1", "mix")),
         ("direct", direct), ("iq_fn", iq_fn),
         ("sv_set", sv_set), ("sv_pd", sv_pd), ("sv_eval", sv_eval), ("sv_clone", sv_clone_eval), ("sv_clone_mut", sv_clone_mut), ("sv_2d", sv_2d),
-        ("sv_array", sv_array), ("svps", svps_comp),
+        ("sv_array", sv_array), ("rel_pair", rel_pair), ("fq_refused", fq_refused), ("svps", svps_comp),
         ("release", release), ("reload", reload),
     ]
     return ops
 
 
 QUICK_OPS = ["mk_q2", "sph_monoflag", "sph_disp", "sph_zero", "sph2d_mag", "sph2d_mono", "sph_fq", "cyl_fq", "cyl_mesh", "cyl_ngauss", "py_nv", "py_2",
-             "prod", "mix", "direct", "sv_set", "sv_eval", "sv_clone_mut", "sv_array", "svps", "release", "reload"]
+             "prod", "mix", "direct", "sv_set", "sv_eval", "sv_clone_mut", "sv_array", "rel_pair", "fq_refused", "svps", "release", "reload"]
 
 
 def _op_table(ctx_quick):
@@ -528,7 +561,7 @@ def _build_oracle(ctx, ops):
     names = [n for n, _ in ops]
     reqs = []
     for n in names:
-        if n in ("mk_q1", "mk_q2", "sv_set", "sv_pd", "release", "reload"):
+        if n in ("mk_q1", "mk_q2", "sv_set", "sv_pd", "release", "reload", "fq_refused"):
             continue
         if n.startswith("sph_") or n == "sph_fq":
             variants = [[], ["mk_q2"]] if "mk_q2" in names else [[]]
